@@ -395,5 +395,213 @@ func main() {
 				}
 			}
 		}})
+	// every byte value at chosen positions of an otherwise well-formed hex argument
+	ck.Domains = append(ck.Domains, &drv.Domain{Name: "byte-substitution", Size: 256 * 4 * 6, Chunk: 256,
+		Desc: "every byte value 0..255 substituted at positions {0, 1, middle, last} of an otherwise well-formed hex argument of each wrapper (address validators, address derivation, verify pk): a hex digit gives the core's answer on the decoded bytes, anything else false / \"\"",
+		Run: func(c *drv.Ctx, lo, hi int64) {
+			ks, xs := getD(c.Seed), getX(c.Seed)
+			dAddr := dilithium.GetDilithiumAddressFromPK(ks[0].pk)
+			xAddr := xmss.GetXMSSAddressFromPK(xs[0].pk)
+			goodSig := hex.EncodeToString(ks[0].sig[0][:])
+			xSig := hex.EncodeToString(xs[0].sig)
+			for i := lo; i < hi; i++ {
+				c.At(i)
+				b := byte(i)
+				posSel, w := int(i/256%4), int(i/1024)
+				var base string
+				switch w {
+				case 0, 1:
+					base = hex.EncodeToString(dAddr[:])
+					if w == 1 {
+						base = hex.EncodeToString(xAddr[:])
+					}
+				case 2, 4:
+					base = hex.EncodeToString(ks[0].pk[:])
+				case 3, 5:
+					base = hex.EncodeToString(xs[0].pk[:])
+				}
+				pos := []int{0, 1, len(base) / 2, len(base) - 1}[posSel]
+				sb := []byte(base)
+				sb[pos] = b
+				str := string(sb)
+				if strings.HasPrefix(str, "0x") {
+					continue // the substitution created a 0x prefix: the rest is well-formed hex of the wrong length, outside the property
+				}
+				raw, err := hex.DecodeString(str)
+				isHex := err == nil
+				var got, want string
+				switch w {
+				case 0:
+					got = outcomeBool(func() bool { return dilithiumjs.IsValidDilithiumAddress(str) })
+					want = "false"
+					if isHex {
+						var a [20]byte
+						copy(a[:], raw)
+						want = fmt.Sprint(dilithium.IsValidDilithiumAddress(a))
+					}
+				case 1:
+					got = outcomeBool(func() bool { return xmssjs.IsValidXMSSAddress(str) })
+					want = "false"
+					if isHex {
+						var a [20]byte
+						copy(a[:], raw)
+						want = fmt.Sprint(xmss.IsValidXMSSAddress(a))
+					}
+				case 2:
+					got = outcomeStr(func() string { return dilithiumjs.GetDilithiumAddressFromPK(str) })
+					want = "value:"
+					if isHex {
+						var pk [dilithium.CryptoPublicKeyBytes]byte
+						copy(pk[:], raw)
+						a := dilithium.GetDilithiumAddressFromPK(pk)
+						want = "value:0x" + hex.EncodeToString(a[:])
+					}
+				case 3:
+					got = outcomeStr(func() string { return strings.ToLower(stripOut(xmssjs.GetXMSSAddressFromPK(str))) })
+					want = "value:"
+					if isHex {
+						var pk [67]byte
+						copy(pk[:], raw)
+						want = outcomeStr(func() string { a := xmss.GetXMSSAddressFromPK(pk); return hex.EncodeToString(a[:]) })
+					}
+				case 4:
+					got = outcomeBool(func() bool { return dilithiumjs.DilithiumVerify(ks[0].msg[0], goodSig, str) })
+					want = "false"
+					if isHex {
+						var pk [dilithium.CryptoPublicKeyBytes]byte
+						copy(pk[:], raw)
+						want = fmt.Sprint(dilithium.Verify(ks[0].msg[0], ks[0].sig[0], &pk))
+					}
+				case 5:
+					got = outcomeBool(func() bool { return xmssjs.XMSSVerify(string(xs[0].msg), xSig, str) })
+					want = "false"
+					if isHex {
+						var pk [67]byte
+						copy(pk[:], raw)
+						want = outcomeBool(func() bool { return xmss.Verify(xs[0].msg, xs[0].sig, pk) })
+					}
+				}
+				c.Eval(1)
+				if !isHex {
+					c.Nontrivial(1)
+				}
+				c.Outcome(fmt.Sprintf("hex=%v", isHex))
+				if got != want {
+					c.Fail(i, fmt.Sprintf("byte-substitution wrapper#%d hex=%v", w, isHex), map[string]any{"position": pos, "byte": fmt.Sprintf("0x%02x", b), "expected": want, "observed": got})
+				}
+			}
+		}})
+	// histories on the wrappers: good call, bad call, the SAME bad call again, good call again
+	ck.Domains = append(ck.Domains, &drv.Domain{Name: "wrapper-histories", Size: int64(len(nonhex)) * 6, Chunk: 6,
+		Desc: "for each wrapper and each non-hex string: well-formed call, non-hex call, the same non-hex call again, well-formed call again, then a well-formed call with a DIFFERENT message / key: every answer equals the core's (a memoised decode or a result cache shows here)",
+		Run: func(c *drv.Ctx, lo, hi int64) {
+			ks, xs := getD(c.Seed), getX(c.Seed)
+			goodSig, goodPK := hex.EncodeToString(ks[0].sig[0][:]), hex.EncodeToString(ks[0].pk[:])
+			pk2 := hex.EncodeToString(ks[1].pk[:])
+			xSig, xPK := hex.EncodeToString(xs[0].sig), hex.EncodeToString(xs[0].pk[:])
+			xPK2 := hex.EncodeToString(xs[1].pk[:])
+			dAddr := dilithium.GetDilithiumAddressFromPK(ks[0].pk)
+			dAddr2 := dilithium.GetDilithiumAddressFromPK(ks[1].pk)
+			xAddr := xmss.GetXMSSAddressFromPK(xs[0].pk)
+			xAddr2 := xmss.GetXMSSAddressFromPK(xs[1].pk)
+			for i := lo; i < hi; i++ {
+				c.At(i)
+				bad := nonhex[i/6]
+				if bad == "0x" {
+					continue
+				}
+				var steps []string
+				var wants []string
+				st := func(got, want string) { steps = append(steps, got); wants = append(wants, want) }
+				switch i % 6 {
+				case 0:
+					f := func(m []byte, sg, pk string) string {
+						return outcomeBool(func() bool { return dilithiumjs.DilithiumVerify(m, sg, pk) })
+					}
+					st(f(ks[0].msg[0], goodSig, goodPK), "true")
+					st(f(ks[0].msg[0], goodSig, bad), "false")
+					st(f(ks[0].msg[0], goodSig, bad), "false")
+					st(f(ks[0].msg[0], bad, goodPK), "false")
+					st(f(ks[0].msg[0], goodSig, goodPK), "true")
+					st(f(ks[0].msg[1], goodSig, goodPK), "false")
+					st(f(ks[0].msg[0], goodSig, pk2), "false")
+				case 1:
+					f := func(pk string) string {
+						return outcomeStr(func() string { return dilithiumjs.GetDilithiumAddressFromPK(pk) })
+					}
+					st(f(goodPK), "value:0x"+hex.EncodeToString(dAddr[:]))
+					st(f(bad), "value:")
+					st(f(bad), "value:")
+					st(f(pk2), "value:0x"+hex.EncodeToString(dAddr2[:]))
+					st(f(goodPK), "value:0x"+hex.EncodeToString(dAddr[:]))
+				case 2:
+					f := func(a string) string {
+						return outcomeBool(func() bool { return dilithiumjs.IsValidDilithiumAddress(a) })
+					}
+					st(f(hex.EncodeToString(dAddr[:])), "true")
+					st(f(bad), "false")
+					st(f(bad), "false")
+					st(f(hex.EncodeToString(xAddr[:])), "false")
+				case 3:
+					f := func(m, sg, pk string) string { return outcomeBool(func() bool { return xmssjs.XMSSVerify(m, sg, pk) }) }
+					st(f(string(xs[0].msg), xSig, xPK), "true")
+					st(f(string(xs[0].msg), xSig, bad), "false")
+					st(f(string(xs[0].msg), xSig, bad), "false")
+					st(f(string(xs[0].msg), bad, xPK), "false")
+					st(f(string(xs[0].msg), xSig, xPK), "true")
+					st(f(string(xs[0].msg)+"x", xSig, xPK), "false")
+					st(f(string(xs[0].msg), xSig, xPK2), outcomeBool(func() bool { return xmss.Verify(xs[0].msg, xs[0].sig, xs[1].pk) }))
+				case 4:
+					f := func(pk string) string { return outcomeStr(func() string { return xmssjs.GetXMSSAddressFromPK(pk) }) }
+					st(f(xPK), "value:"+hex.EncodeToString(xAddr[:]))
+					st(f(bad), "value:")
+					st(f(bad), "value:")
+					st(f(xPK2), "value:"+hex.EncodeToString(xAddr2[:]))
+				case 5:
+					f := func(a string) string { return outcomeBool(func() bool { return xmssjs.IsValidXMSSAddress(a) }) }
+					st(f(hex.EncodeToString(xAddr[:])), "true")
+					st(f(bad), "false")
+					st(f(bad), "false")
+					st(f(hex.EncodeToString(dAddr[:])), "false")
+				}
+				c.Eval(int64(len(steps)))
+				c.Nontrivial(1)
+				c.Outcome("ok")
+				for k := range steps {
+					if steps[k] != wants[k] {
+						c.Fail(i, fmt.Sprintf("wrapper-history wrapper#%d step=%d", i%6, k), map[string]any{"non_hex_input": fmt.Sprintf("%q", bad), "step": k, "expected": wants[k], "observed": steps[k], "all_steps": steps})
+						break
+					}
+				}
+			}
+		}})
+	// non-ASCII / non-UTF-8 messages through the string-typed XMSS wrapper
+	umsgs := []string{"café", "€ 10", "\xff\xfe", "naïve \x00 null", "日本語", "\x80"}
+	ck.Domains = append(ck.Domains, &drv.Domain{Name: "xmss-message-bytes", Size: int64(len(umsgs)) * 2, Chunk: 2,
+		Desc: "XMSSVerify takes the message as a string: signatures over non-ASCII and invalid-UTF-8 messages (signed by the core over the string's bytes) must verify through the wrapper, and a signature over the one-byte-per-rune narrowing of the message must not",
+		Run: func(c *drv.Ctx, lo, hi int64) {
+			for i := lo; i < hi; i++ {
+				c.At(i)
+				m := umsgs[i/2]
+				k := xmss.NewXMSSFromSeed(seeds.Seed48(3, c.Seed), 4, xmss.SHAKE_128, common.SHA256_2X)
+				pk := k.GetPK()
+				signed := []byte(m)
+				if i%2 == 1 {
+					signed = nil
+					for _, r := range m {
+						signed = append(signed, byte(r))
+					}
+				}
+				sig, _ := k.Sign(signed)
+				core := outcomeBool(func() bool { return xmss.Verify([]byte(m), sig, pk) })
+				wr := outcomeBool(func() bool { return xmssjs.XMSSVerify(m, hex.EncodeToString(sig), hex.EncodeToString(pk[:])) })
+				c.Eval(1)
+				c.Nontrivial(1)
+				c.Outcome(core)
+				if core != wr {
+					c.Fail(i, "xmss-message-bytes", map[string]any{"message": fmt.Sprintf("%q", m), "signed_bytes": drv.Hex(signed), "core": core, "wrapper": wr})
+				}
+			}
+		}})
 	drv.Main(ck)
 }
